@@ -16,6 +16,8 @@ TEXT = {
               'AST worklist-discipline rule + alias/effect summaries'),
     'C04': _t('Decides: the three refinement loops stop only at a stable partition and register every change; input DFA untouched. Not decided: that the partition is Myhill-Nerode, equivalence, order independence of the language.',
               'flag/snapshot fixpoint must-pass-through on the CFG + effect summaries'),
+    'C05': _t('Decides exactly: every rewrite path of regexp_simplify is a Kleene-algebra identity, does not grow the term and is applied bottom-up. Decides: matcher split ranges / base cases / star recursion, exhaustive dispatch, no memo. Not decided: that the recursive matcher equals the denotation beyond those facts.',
+              'rewrite rules extracted from the if-chains and decided as Kleene-algebra identities by a derivative-based equivalence procedure in the analyser'),
     'C06': _t('Decides: state names of a translation come from one private generator or a provider whose universe covers the set joined; GNFA start/accept are fresh; the building blocks pass the epsilon their keys use and translate operand epsilons; operands untouched. Not decided: language equality for all expressions and elimination orders.',
               'provenance + universe-coverage rule for introduced names, epsilon def-use agreement, alias/effect summaries'),
     'C08': _t('Decides: six pure/in-place twins are paired correctly, input grammar untouched, nullable/unit closures saturated. Not decided: language preservation per phase.',
